@@ -222,7 +222,7 @@ pub fn run_case(case: &Case, opts: &Opts) -> (Vec<Finding>, Stats) {
                     Ok(other) => fs.push(finding(
                         "serde-json-roundtrip-differs",
                         "read(to_json(instructions)) fails or serialises differently".into(),
-                        json!({ "result": format!("{:?}", other.map(|r| r.map(|b| b.map(|b| hex::encode(b))))) }),
+                        json!({ "result": format!("{:?}", other.map(|r| r.map(hex::encode))) }),
                     )),
                 }
                 // binary: exact buffer, then buffer followed by sentinel bytes
